@@ -422,7 +422,11 @@ impl WorkStealingExecutor {
         const MAX_IDLE: usize = 100;
 
         while !shutdown.load(Ordering::Relaxed) {
+            #[cfg(zipora_verif)]
+            crate::verif::async_point("work_stealing.loop_top").await;
             let task = Self::find_task(my_queue, &other_queues, &global_queue, &stats);
+            #[cfg(zipora_verif)]
+            crate::verif::async_point("work_stealing.after_find").await;
 
             match task {
                 Some(task) => {
@@ -453,6 +457,8 @@ impl WorkStealingExecutor {
                 }
             }
 
+            #[cfg(zipora_verif)]
+            crate::verif::async_point("work_stealing.before_balance").await;
             // Periodically balance the queue
             if stats.total_executed.load(Ordering::Relaxed) % 100 == 0 {
                 my_queue.balance();
